@@ -1,5 +1,5 @@
 #!/usr/bin/env python3
-"""seedtable.py: writes seeded/TABLE.md (rounds 2 to 6 of the independent seeded changes) from the
+"""seedtable.py: writes seeded/TABLE.md (rounds 2 to 7 of the independent seeded changes) from the
 seeds' notes, the regression matrix seeded/RESULTS.txt and the history notes below, and copies the
 history into each seed's meta.json."""
 import json, os, re
@@ -89,13 +89,27 @@ H = {
  'r6-C18-1': "initially missed: no bare panic below a call form with a handler that looks at what it caught; added 3 fixed programs",
  'r6-C19-1': "not reported as built: no unquote of a deref in a template; added",
  'r6-C19-2': "not reported as built: no future that is the value of a top-level form; added",
+ # round 7 (nothing was added before the round had been evaluated as built)
+ 'r7-C01-2': "initially missed: no vector or map literal in the core grammar; added the literals-in-bodies family (literals as statements of do / let / fn bodies)",
+ 'r7-C02-2': "initially missed: no handler whose catch symbol has the name of a binding of the same frame; added two operations (global frame, let frame with a closure made before)",
+ 'r7-C03-2': "initially missed: every catch binder was a symbol; added the catch-binders-that-are-no-symbol family (finally logs exactly once whatever the binder)",
+ 'r7-C04-1': "initially missed: no vector headed by catch / finally / unquote among the operand shapes; added",
+ 'r7-C04-2': "the same change as r7-C11-1 (a data race that ends in a runtime fatal error, which no recover sees): out of reach of C04's single-threaded enumeration, reported by C11's free-running race pass (sampled)",
+ 'r7-C05-2': "initially missed: no empty string among the tokens; added",
+ 'r7-C07-1': "initially missed: no text in constructor notation read at run time; added two shapes (new-nap bound to sleep at the root)",
+ 'r7-C07-2': "initially missed: no future cancelled by the program and dereferenced afterwards; added three shapes",
+ 'r7-C11-2': "initially missed: no macro redefined while another thread expands a call of it; added the two programs (explored under the scheduler, in pairs)",
+ 'r7-C15-1': "initially missed: no % in the values; added",
+ 'r7-C15-2': "initially missed: no map key / set element with TAB, CR, DEL or a non-printing character among the values (C06 had them); added, with the empty key",
+ 'r7-C19-2': "initially missed: no argument failing inside a special form under a handler; added a grammar leaf and a fixed program looking at what the handler receives",
+ 'r7-C20-2': "initially missed: a panic with a value that is no error was only required to be catchable; added panic(int) and panic(lisp vector), and the value must still be carried by the error",
 }
 res = {}
 for l in open('/verif/seeded/RESULTS.txt'):
     n = l.split(' | ')[0].strip()
     res[n] = [m.group(1) for m in re.finditer(r'\| (C\d\d) rc=1', l)]
 out = []
-for rnd in ('r2', 'r3', 'r4', 'r5', 'r6'):
+for rnd in ('r2', 'r3', 'r4', 'r5', 'r6', 'r7'):
     out.append(f"\n**Round {rnd[1]}**\n\n| seed | what it does (first line of the author's notes) | reported by (own-property quick check, regression matrix) | history |\n|---|---|---|---|")
     for d in sorted(os.listdir('/verif/seeded')):
         if not d.startswith(rnd + '-'): continue
